@@ -19,6 +19,7 @@ import subprocess
 import sys
 import threading
 import time
+from concurrent.futures import ThreadPoolExecutor
 
 from common import Verdict, tier as get_tier, seed as get_seed, RUN
 import judge
@@ -35,12 +36,12 @@ PREFIX = "c20"
 URL = "redis://localhost:6379"
 TTL = 60
 
-def C(name, kind, shape, nc=1, cap=1, w2=0, lite=0, ml=2, mi=1, ttl1=0, budget=0):
+def C(name, kind, shape, nc=1, cap=1, w2=0, lite=0, ml=2, mi=1, ttl1=0, nkeys=2, budget=0):
     """One configuration of MC_Store: store kind, value shape, clients, cache capacity, client 2 only
     writes, reduced operation set, longest list, bound of the in-flight queues, SetTtl on k1 only,
     number of target edges of the cover (0 = every edge)."""
     return {"name": name, "kind": kind, "shape": shape, "nclients": nc, "cap": cap, "writer2": w2, "lite": lite,
-            "maxlen": ml, "maxinfl": mi, "ttl1": ttl1, "budget": budget}
+            "maxlen": ml, "maxinfl": mi, "ttl1": ttl1, "nkeys": nkeys, "budget": budget}
 
 
 CONFIGS = {
@@ -62,7 +63,8 @@ CONFIGS = {
         C("rdict-1c-cap2", "redis", "dict", cap=2),
         C("rdict-2c", "redis", "dict", nc=2, w2=1),
         C("rlist-2c", "redis", "list", nc=2, w2=1),
-        C("rdict-2c-both", "redis", "dict", nc=2, lite=1, budget=300000),
+        C("rdict-2c-both", "redis", "dict", nc=2, nkeys=1, mi=2),
+        C("rlist-2c-both", "redis", "list", nc=2, nkeys=1, mi=2),
     ],
 }
 PATH_CAP = 60
@@ -73,7 +75,7 @@ THREADED_PATHS = 10     # per configuration: paths replayed with the real listen
 def P_of(cfg):
     return {"kind": cfg["kind"], "shape": cfg["shape"], "nclients": cfg["nclients"], "cap": cfg["cap"],
             "maxlen": cfg["maxlen"], "maxinfl": cfg["maxinfl"], "ttl": TTL, "writer2": bool(cfg["writer2"]),
-            "lite": bool(cfg["lite"]), "ttl1": bool(cfg["ttl1"])}
+            "lite": bool(cfg["lite"]), "ttl1": bool(cfg["ttl1"]), "nkeys": cfg["nkeys"]}
 
 
 # ---------------------------------------------------------------------------------------------
@@ -514,13 +516,16 @@ def run(tier_name=None, replay=None):
         if rp.get("type", "path") == "path":
             cfg = rp["cfg"]
             ops = Real(cfg, workdir, version=cfg.get("version", "6.2.0")).replay([tuple(x) for x in rp["labels"]])
-            rows = [{"id": 1, "type": "path", "P": P_of(cfg), "ops": ops}]
+            rows = [{"type": "path", "P": P_of(cfg), "ops": ops}]
         elif rp["type"] == "badfile":
-            rows = [dict(o, id=1) for o in badfile_cases(workdir) if o["variant"] == rp["variant"]]
+            rows = [o for o in badfile_cases(workdir) if o["variant"] == rp["variant"]]
         else:
-            rows = [dict(engine_ttl_case(rp["want"]), id=1)]
+            rows = [engine_ttl_case(rp["want"])]
         try:
-            fails, stats = judge_rows(rows, os.path.join(RUN, "C20-replay"))
+            sink = Sink(os.path.join(RUN, "C20-replay"), "replay", parts=1)
+            for r in rows:
+                sink.add(r)
+            fails, stats = sink.judge()
         except Exception as ex:
             v.machinery_failure(str(ex)[:1500])
             return v.finish()
@@ -536,7 +541,8 @@ def run(tier_name=None, replay=None):
     # -- the model: one TLC run, every kind ------------------------------------------------------
     m = run_model(configs, workdir, 8)
     t_model = time.time() - t0
-    rows, meta, nid, nvariant = [], {}, [0], [0]
+    sink = Sink(workdir, t)
+    meta, nvariant, sample_rows = {}, [0], []
     cover_info = {}
     t_cover = t_replay = 0.0
     if not m["ok"]:
@@ -566,11 +572,11 @@ def run(tier_name=None, replay=None):
         nops = 0
         for pi, p in enumerate(paths):
             labs = [labels[adj[u][ei][0]] for (u, ei) in p]
-            ops = real.replay(labs, threaded=pi < THREADED_PATHS)
-            nid[0] += 1
-            rows.append({"id": nid[0], "type": "path", "P": P, "ops": ops})
-            meta[nid[0]] = (cfg, labs)
-            nops += len(ops)
+            row = {"type": "path", "P": P, "ops": real.replay(labs, threaded=pi < THREADED_PATHS)}
+            meta[sink.add(row)] = (cfg, labs)
+            nops += len(labs)
+            if pi == 0 and len(sample_rows) < 3:
+                sample_rows.append(row)
         t_replay += time.time() - tb
         # the same operations where the cache is out of use: a server without client tracking (Redis 5) and
         # cache_size 0 -- get_cached_view must then simply answer from the server
@@ -579,9 +585,8 @@ def run(tier_name=None, replay=None):
                 vreal = Real(vcfg, workdir, version=ver)
                 for p in paths[:VARIANT_PATHS]:
                     labs = [labels[adj[u][ei][0]] for (u, ei) in p]
-                    nid[0] += 1
-                    rows.append({"id": nid[0], "type": "path", "P": P_of(vcfg), "ops": vreal.replay(labs, threaded=False)})
-                    meta[nid[0]] = (dict(vcfg, version=ver, name=name + "/" + vname), labs)
+                    rid = sink.add({"type": "path", "P": P_of(vcfg), "ops": vreal.replay(labs, threaded=False)})
+                    meta[rid] = (dict(vcfg, version=ver, name=name + "/" + vname), labs)
                     nvariant[0] += len(labs)
         cover_info[name] = {"states": nstates, "transitions": nedges, "paths": len(paths),
                             "operations": nops, "edges_covered": ncov, "edge_coverage": round(ncov / max(nedges, 1), 4),
@@ -597,18 +602,17 @@ def run(tier_name=None, replay=None):
     except Exception as ex:
         v.machinery_failure("engine run on the simulated Redis failed: %r" % (ex,))
     for o in extra:
-        nid[0] += 1
-        o["id"] = nid[0]
-        rows.append(o)
-        meta[nid[0]] = (None, o)
+        meta[sink.add(o)] = (None, o)
     # -- judge ---------------------------------------------------------------------------------------
     tc = time.time()
     try:
-        fails, stats = judge_rows(rows, workdir)
+        fails, stats = sink.judge()
     except Exception as ex:
         v.machinery_failure(str(ex)[:1500])
         return v.finish()
     t_judge = time.time() - tc
+    # on the variants (no tracking at all) the model's in-flight queues are not comparable
+    stats["drift"] = sum(1 for i in stats["drift_ids"] if meta[i][0] is not None and "version" not in meta[i][0])
     cl = collections.Counter()
     seen_paths = set()
     for f in fails:
@@ -617,23 +621,22 @@ def run(tier_name=None, replay=None):
             v.known_finding(f["kf"])
             continue
         cfg, x = meta[f["id"]]
-        if f["id"] in seen_paths:
+        if f["id"] in seen_paths or len(seen_paths) >= 40:
             continue
         seen_paths.add(f["id"])
         if cfg is None:
             v.violation(dict(x, property="C20"), "%s: %s" % (f["clause"], json.dumps({k: x[k] for k in x if k not in ("P", "id")})[:200]))
         else:
             labs = x[:f["step"]]
-            row = next(r for r in rows if r["id"] == f["id"])
+            seen_op = Real(cfg, workdir, version=cfg.get("version", "6.2.0")).replay(labs)[-1]      # deterministic: run it again
             text = " ; ".join(lab_text(l) for l in labs)
             v.violation({"property": "C20", "type": "path", "cfg": cfg, "labels": [list(l) for l in labs], "text": text,
-                         "clause": f["clause"], "observed": row["ops"][f["step"] - 1]},
-                        "%s [%s] after %s -> %s" % (f["clause"], cfg["name"], text[-160:], json.dumps(row["ops"][f["step"] - 1]["out"])[:120]))
+                         "clause": f["clause"], "observed": seen_op},
+                        "%s [%s] after %s -> %s" % (f["clause"], cfg["name"], text[-160:], json.dumps(seen_op["out"])[:120]))
     nops = sum(c["operations"] for c in cover_info.values())
     npaths = sum(c["paths"] for c in cover_info.values())
     tot_edges = sum(c["transitions"] for c in cover_info.values())
     cov_edges = sum(c["edges_covered"] for c in cover_info.values())
-    sample_rows = [r for r in rows if r["type"] == "path"][:2]
     v.coverage = {
         "states": sum(c["states"] for c in cover_info.values()) + stats["states"],
         "transitions": tot_edges + stats["transitions"],
@@ -656,7 +659,7 @@ def run(tier_name=None, replay=None):
         "tlc_cpu_s": stats["tlc_cpu_s"],
     }
     if stats.get("drift", 0):
-        print("DRIFT property=C20 %d operation(s) where the invalidations in flight differ from the model's "
+        print("DRIFT property=C20 %d path(s) where the invalidations in flight differ from the model's "
               "(no clause failed because of that; see evidence)" % stats["drift"])
     v.assumptions = [
         "lib/vsim/fakeredis.py is Redis and pottery as far as store.py can tell (its assumptions A1-A8: RESP2 tracking with redirect, "
@@ -670,14 +673,69 @@ def run(tier_name=None, replay=None):
     return v.finish()
 
 
-def judge_rows(rows, workdir):
-    """Every row is a whole case, so run_judge's round-robin split is fine.  Failures of the pseudo
-    clause "drift" (the real client's invalidations in flight differ from the model's) are counted,
-    never reported: which keys a client asks the server to watch is not part of the property."""
-    nops = sum(len(r.get("ops", ())) for r in rows)
-    fails, stats = judge.run_judge("JudgeC20", rows, workdir, parts=max(1, min(16, nops // 40000 + 1)))
-    stats["drift"] = sum(1 for f in fails if f["clause"] == "drift")
-    return [f for f in fails if f["clause"] != "drift"], stats
+class Sink:
+    """Observations go straight to ndjson part files (a thorough run has millions of operations): a whole
+    case per line, parts balanced by the number of operations; each part is judged by one TLC process."""
+
+    def __init__(self, workdir, tag, parts=16):
+        os.makedirs(workdir, exist_ok=True)
+        self.paths = [os.path.join(workdir, "obs-%s-%d-%02d.ndjson" % (tag, os.getpid(), p)) for p in range(parts)]
+        self.files = [None] * parts
+        self.load = [0] * parts
+        self.n = 0
+        self.nops = 0
+
+    def add(self, row):
+        self.n += 1
+        row["id"] = self.n
+        w = len(row.get("ops", ())) + 1
+        # fill one part up to 25 000 operations before opening the next (a JVM costs seconds)
+        p = next((i for i in range(len(self.paths)) if 0 < self.load[i] < 25000), None)
+        if p is None:
+            p = min(range(len(self.paths)), key=lambda i: self.load[i])
+        if self.files[p] is None:
+            self.files[p] = open(self.paths[p], "w")
+        self.files[p].write(json.dumps(row, separators=(",", ":")))
+        self.files[p].write("\n")
+        self.load[p] += w
+        self.nops += w
+        return self.n
+
+    def judge(self, timeout=2400):
+        """-> (failures without the pseudo clause "drift", stats).  "drift" (the real client's invalidations in
+        flight differ from the model's) is counted, never reported: which keys a client asks the server to watch
+        is not part of the property."""
+        used = []
+        for f, p in zip(self.files, self.paths):
+            if f is not None:
+                f.close()
+                used.append(p)
+        known = tlc.merged_known()
+
+        def one(path):
+            r = tlc.run_tlc("JudgeC20.tla", "Judge.cfg", env={"OBS_FILE": path, "KNOWN_FINDINGS": known}, workers=1, timeout=timeout)
+            vd = tlc.parse_verdict(r["out"])
+            if vd is None or "No error has been found" not in r["out"]:
+                raise tlc.TLCError("TLC judge JudgeC20 failed on %s (rc=%s):\n%s" % (path, r["rc"], r["out"][-3000:]))
+            return vd, r
+        fails, states, cpu = [], 0, 0.0
+        t0 = time.time()
+        try:
+            with ThreadPoolExecutor(max_workers=16) as ex:
+                for vd, r in ex.map(one, used):
+                    fails.extend(vd["failures"])
+                    states += r["distinct"]
+                    cpu += r["wall"]
+        finally:
+            for p in used:
+                try:
+                    os.remove(p)
+                except OSError:
+                    pass
+        stats = {"states": states, "transitions": max(states - len(used), 0), "judged": self.n,
+                 "tlc_wall_s": round(time.time() - t0, 2), "tlc_cpu_s": round(cpu, 2),
+                 "drift_ids": sorted(f["id"] for f in fails if f["clause"] == "drift")}
+        return [f for f in fails if f["clause"] != "drift"], stats
 
 
 if __name__ == "__main__":
